@@ -124,9 +124,9 @@ pub fn run() {
 				(true, Err(Fail::Err(_))) | (false, Ok(_)) => true,
 				_ => false,
 			};
-			let mut bad: Vec<i64> = vec![];
+			let mut bad: Vec<(i64, String)> = vec![];
 			if !ok {
-				bad.push(0);
+				bad.push((0, "slippi::write accepted an unsupported version or refused a supported one".to_string()));
 			}
 			local.evaluations += 1;
 			// peppi::write
@@ -138,12 +138,12 @@ pub fn run() {
 				let g = Game { start: st, end: None, frames, metadata: None, gecko_codes: None, hash: None, quirks: None };
 				local.evaluations += 1;
 				if !matches!(write_slpp(g, 0), Err(Fail::Err(_))) {
-					bad.push(1);
+					bad.push((1, "the unsupported version was not refused".to_string()));
 				}
 			} else if !quick || matches!(pa, 0 | 1 | 255) {
 				local.evaluations += 1;
-				if check(v, 1).is_err() {
-					bad.push(1);
+				if let Err((_, m)) = check(v, 1) {
+					bad.push((1, m));
 				}
 			}
 			// field above the maximum, raw block not: must still be refused (only asked on the refusing side;
@@ -151,8 +151,8 @@ pub fn run() {
 			if over && matches!(pa, 0 | 1 | 255) {
 				for w in [4i64, 5] {
 					local.evaluations += 1;
-					if check(v, w).is_err() {
-						bad.push(w);
+					if let Err((_, m)) = check(v, w) {
+						bad.push((w, m));
 					}
 				}
 			}
@@ -160,17 +160,17 @@ pub fn run() {
 			if matches!(pa, 0 | 1 | 255) {
 				for w in [2i64, 3] {
 					local.evaluations += 1;
-					if check(v, w).is_err() {
-						bad.push(w);
+					if let Err((_, m)) = check(v, w) {
+						bad.push((w, m));
 					}
 				}
 			}
-			for w in bad {
+			for (w, first) in bad {
 				let mut p = P { class: ["slp", "slpp", "slp-with-frames", "slpp-with-frames", "slp-field-vs-raw", "slpp-field-vs-raw"][w as usize], ..Default::default() };
 				p.n = [w, ma as i64, mi as i64, pa as i64, 0, 0];
 				let empty = Arc::new(vec![]);
 				local.evaluations -= 1;
-				eval_case("write_version", o_write_version, &empty, &p, || format!("writer {} version {}.{}.{}", w, ma, mi, pa), local);
+				eval_flagged("write_version", o_write_version, &empty, &p, || format!("writer {} version {}.{}.{}", w, ma, mi, pa), first, local);
 			}
 			local.outcomes.insert(over as u64);
 			local.states.insert(fnv_mix(7, over as u64));
